@@ -91,7 +91,7 @@ class Checker:
             node = self.model.nodes[cur]
             if node.id != cur:
                 raise LvsModelError(f"Malformed node id {cur}")
-            if par and node.parent != par:
+            if node.parent != par:
                 raise LvsModelError(f"Node {cur} has a wrong parent")
             for ve in node.v_edges:
                 if ve.dest is None or not ve.value:
@@ -126,6 +126,8 @@ class Checker:
                 in_deg_nodes.add(key_node_id)
                 adj_lst[cur].append(key_node_id)
 
+        if self.model.start_id is None:
+            raise LvsModelError("The start node is missing")
         dfs(self.model.start_id, None)
         top_order(nodes_id_lst, adj_lst)
         self._trust_roots = {
